@@ -119,12 +119,12 @@ class Tables:
 
 
 class GTab:
-    def __init__(self, tables, N):
+    def __init__(self, tables, N, prefix="t"):
         self.T = tables
         self.N = N
         ids = tables.term_ids or [5]
-        self.toks = [z3.Int("t%d" % i) for i in range(N)]
-        self.n = z3.Int("t_len")
+        self.toks = [z3.Int("%s%d" % (prefix, i)) for i in range(N)]
+        self.n = z3.Int("%s_len" % prefix)
         self.dom = [z3.Or([t == i for i in ids]) for t in self.toks] + [self.n >= 0, self.n <= N]
         vi = {i: i for i in ids}
         self.L = C.Lang(tables.prods, tables.start, vi, self.toks, self.n, N)
